@@ -948,6 +948,28 @@ def r20e(R):
             icfg, icfg.entry, set((n.id, False) for n in has_active))
         ok = any(n.id in reach for n in bg_nodes) and \
             all(n.kind == 'cond' for n in name_eq)
+    if ok:
+        # "True" is answered only for the active job of that name; what is
+        # answered otherwise is the membership in the background table
+        pn = ir.params[1]
+        eq = '%s == %s' % tuple(sorted((pn, 'self._active_agent.name')))
+        need = {('self._active_agent is None', False), (eq, True)}
+        for n in icfg.nodes:
+            val = None
+            if n.kind == 'stmt' and isinstance(n.ast, ast.Assign):
+                val = n.ast.value
+            elif n.is_return and n.ret_expr is not None:
+                val = n.ret_expr
+            if isinstance(val, ast.Constant) and val.value is True:
+                if not need <= A.path_facts(ir, n):
+                    ok = False
+            if isinstance(val, ast.Constant) and val.value is False \
+                    and any(t for t in A.path_facts(ir, n)
+                            if t[0] == eq and t[1] is True):
+                ok = False
+        for n in bg_nodes:
+            if (eq, True) in A.path_facts(ir, n):
+                ok = False
     R.check(ir, 'is_running: active agent\'s name, else background key - also '
             'while another job is active', ok,
             'is_running consults the background table only when no queued job '
